@@ -21,6 +21,7 @@ Implementation: Single-file analysis with config-driven filtering and tree-sitte
 
 from src.core.base import BaseLintContext, BaseLintRule
 from src.core.linter_utils import (
+    get_metadata,
     has_file_content,
     is_ignored_path,
     load_linter_config,
@@ -111,7 +112,10 @@ class UnwrapAbuseRule(BaseLintRule):
         """
         if self._config_override is not None:
             return self._config_override
-        return load_linter_config(context, "unwrap-abuse", UnwrapAbuseConfig)
+        # The config loader normalises section names to underscores ("unwrap_abuse");
+        # metadata injected directly may still use the documented hyphenated spelling.
+        key = "unwrap_abuse" if "unwrap_abuse" in get_metadata(context) else "unwrap-abuse"
+        return load_linter_config(context, key, UnwrapAbuseConfig)
 
     def _build_violations(
         self,
